@@ -170,6 +170,35 @@ fn trunc_case(out: &mut Out, stamps: &[Vec<u64>], t: u64, with_active: bool) {
     out.emit(&rec);
 }
 
+/// recover_entries_after on real deltas whose stamps are not monotone in append order (several shards
+/// with clocks of their own write one WAL): the deltas with stamp >= x, in append order.
+fn order_case(out: &mut Out, stamps: &[Vec<u64>], x: u64) {
+    let store = InMemoryWalStore::new();
+    let mut gid = 0u64;
+    for (k, f) in stamps.iter().enumerate() {
+        let w = store.create(&name(k as u64 + 1)).unwrap();
+        let mut ww = WalWriter::new(w, k as u64 + 1).unwrap();
+        for st in f {
+            gid += 1;
+            let d = crate::wal::make_delta(gid, *st, 3);
+            ww.append_entry(&WalEntry::from_delta(&d, *st).unwrap()).unwrap();
+        }
+        ww.sync().unwrap();
+    }
+    let st = store.clone();
+    let r = catch(move || {
+        let rot = WalRotator::new(st, 1 << 20).unwrap();
+        rot.recover_entries_after(x).map(|ds| ds.iter().map(|d| d.key.trim_start_matches("key").parse::<u64>().unwrap_or(0)).collect::<Vec<u64>>())
+    });
+    let mut rec = json!({"t": "order", "run": out.n + 1, "stamps": stamps, "x": x, "got": [], "err": ""});
+    match r {
+        Ok(Ok(g)) => rec["got"] = json!(g),
+        Ok(Err(e)) => rec["err"] = json!(e.to_string()),
+        Err(p) => rec["panic"] = json!(p),
+    }
+    out.emit(&rec);
+}
+
 pub fn main(a: &Args) -> i32 {
     let mut out = Out::create(&a.str("out", "walfmt.ndjson"));
     let thorough = a.str("tier", "quick") == "thorough";
@@ -212,6 +241,17 @@ pub fn main(a: &Args) -> i32 {
                 }
             }
         }
+    }
+    // append order under non-monotone stamps
+    for stamps in [vec![vec![100u64, 5, 101, 6, 102]], vec![vec![7, 3], vec![9, 1, 8]], vec![vec![2, 2, 1], vec![1, 3]], vec![vec![5], vec![4], vec![6, 2]]] {
+        for x in [0u64, 2, 5, 100] {
+            order_case(&mut out, &stamps, x);
+        }
+    }
+    for _ in 0..(if thorough { 400 } else { 60 }) {
+        let nf = rng.gen_range(1..=3);
+        let stamps: Vec<Vec<u64>> = (0..nf).map(|_| (0..rng.gen_range(1..=4)).map(|_| rng.gen_range(1..=9)).collect()).collect();
+        order_case(&mut out, &stamps, rng.gen_range(0..=9));
     }
     println!("{{\"cases\": {}}}", out.finish());
     0
